@@ -49,7 +49,7 @@ def _aut(kind, tables=True):
 
 # ------------------------------------------------------------------ A
 
-def make_init_family(kind, qinit, plus_one):
+def make_init_family(kind, qinit, plus_one, moore=True):
     import z3
     import omega.games.gr1 as gr1
     from vlib import bdd2smt, family, link
@@ -67,7 +67,7 @@ def make_init_family(kind, qinit, plus_one):
     internal = aut.add_expr('m = 0')
     aut.qinit = qinit
     aut.plus_one = plus_one
-    aut.moore = True
+    aut.moore = moore
     gr1._make_init(internal, win, aut)
     exp = bdd2smt.Exporter(aut.bdd)
     bits = exp.bits
@@ -95,7 +95,7 @@ def make_init_family(kind, qinit, plus_one):
     t1 = time.time()
     r = str(sol.check())
     dt = time.time() - t1
-    name = f'make_init {kind} qinit={qinit} plus_one={plus_one}'
+    name = f'make_init {kind} qinit={qinit} plus_one={plus_one} moore={moore}'
     sample = dict(kind=kind, qinit=qinit, plus_one=plus_one, constants=len(params),
                   predicates=f'2^{len(params)} triples (EnvInit, SysInit, Win)')
     if r == 'unsat':
@@ -109,17 +109,17 @@ def make_init_family(kind, qinit, plus_one):
         d = aut.vars[n]
         a = {b: z3.is_true(m.eval(bits(b), model_completion=True)) for b in link.bits_of(n, d)}
         st[n] = link.bits_to_value(n, d, a)
-    ok, why = replay_make_init(kind, qinit, plus_one, vals, st)
+    ok, why = replay_make_init(kind, qinit, plus_one, vals, st, moore)
     if ok:
         return [core.res(name, 'violation', queries={r: 1}, solver_s=dt, sample=sample, nontrivial=True,
                          functions=FUNCS, signature=f'make_init:{qinit}:{"plus_one" if plus_one else "stepwise"}',
-                         detail=why, cex=dict(kind='make_init', decl=kind, qinit=qinit, plus_one=plus_one,
+                         detail=why, cex=dict(kind='make_init', decl=kind, qinit=qinit, plus_one=plus_one, moore=moore,
                                               values=vals, state=st))]
     return [core.res(name, 'inconclusive', queries={r: 1}, solver_s=dt, sample=sample,
                      detail='counterexample did not reproduce: ' + why)]
 
 
-def replay_make_init(kind, qinit, plus_one, vals, st):
+def replay_make_init(kind, qinit, plus_one, vals, st, moore=True):
     """Concrete predicates; documented formula evaluated by enumeration."""
     import omega.games.gr1 as gr1
     from vlib import family, link
@@ -136,7 +136,7 @@ def replay_make_init(kind, qinit, plus_one, vals, st):
     SI = aut.let(vals, aut.add_expr(si))
     W = aut.let(vals, aut.add_expr(wi))
     aut.init['env'], aut.init['sys'] = EI, SI
-    aut.qinit, aut.plus_one, aut.moore = qinit, plus_one, True
+    aut.qinit, aut.plus_one, aut.moore = qinit, plus_one, moore
     try:
         gr1._make_init(aut.add_expr('m = 0'), W, aut)
     except AssertionError as e:
@@ -429,7 +429,7 @@ def _construct_case(c):
 def replay(payload):
     c = payload['cex']
     if c['kind'] == 'make_init':
-        return replay_make_init(c['decl'], c['qinit'], c['plus_one'], c['values'], c['state'])
+        return replay_make_init(c['decl'], c['qinit'], c['plus_one'], c['values'], c['state'], c.get('moore', True))
     if c['kind'] == 'verdict':
         return replay_verdict(c)
     status, detail, sig, _ = _construct_case(c)
@@ -442,9 +442,10 @@ def run(tier, seed, t0, only=None):
     for kind in kinds:
         for qinit in QINITS:
             for plus_one in (True, False):
-                tasks.append(dict(mod='vlib.props.c03', fn='make_init_family',
-                                  kw=dict(kind=kind, qinit=qinit, plus_one=plus_one), timeout=1200,
-                                  name=f'make_init:{kind}:{qinit}:plus_one={plus_one}'))
+                for moore in (True, False):
+                    tasks.append(dict(mod='vlib.props.c03', fn='make_init_family',
+                                      kw=dict(kind=kind, qinit=qinit, plus_one=plus_one, moore=moore), timeout=1200,
+                                      name=f'make_init:{kind}:{qinit}:plus_one={plus_one}:moore={moore}'))
                 if kind == 'bool' and tier == 'quick' and qinit in ('\\A \\E', '\\E \\A'):
                     # quick: seeded 512 triples for the two disjoint-state forms; thorough: exhaustive
                     tasks.append(dict(mod='vlib.props.c03', fn='verdict_instances',
